@@ -18,6 +18,7 @@ from __future__ import annotations
 import ast
 
 from .. import signs
+from ..flow import effective_body, none_test
 from ..model import model_of
 from ..source import AnalysisError, calls_in, dotted, enclosing_function, norm, parent, qual_of
 
@@ -182,7 +183,7 @@ def run(chk):
             continue
         n_dunder += 1
         params = [a.arg for a in r.func.args.args]
-        body = [s for s in r.func.body if not (isinstance(s, ast.Expr) and isinstance(s.value, ast.Constant))]
+        body = effective_body(r.func) if not isinstance(r.func, ast.Lambda) else [r.func.body]
         good, why = False, "body is not a single return"
         if len(body) == 1 and isinstance(body[0], ast.Return) and body[0].value is not None:
             v = body[0].value
@@ -292,9 +293,12 @@ def _case_rule(chk, repo):
                     for k in c.keywords:
                         if k.arg == "else_":
                             el = k.value
-                    else_ok = isinstance(el, ast.IfExp) and "default_val" in norm(el.test) and "is not None" in norm(el.test) and (
-                        isinstance(el.orelse, ast.Constant) and el.orelse.value is None
-                    )
+                    else_ok = False
+                    if isinstance(el, ast.IfExp):
+                        nt = none_test(el.test)
+                        if nt is not None and nt[0].endswith("default_val"):
+                            given, absent = (el.body, el.orelse) if nt[1] else (el.orelse, el.body)
+                            else_ok = isinstance(absent, ast.Constant) and absent.value is None and "default_val" in norm(given)
                     chk.ob("R3", sql, c, "sql CaseExpr: else_ only if default_val is not None", else_ok,
                            "the ELSE of a case expression must be compiled exactly when a default was given")  # fmt: skip
             chk.ob("R3", sql, n, "sql CaseExpr: (cond, val) pairs in order of expr.cases", good, why)
